@@ -77,7 +77,7 @@ Definition astep (A : astate) (o : op) : res astate :=
   | OSuicide a =>
     match ad_acc D a with
     | Some c => Ok (with_data A (set_acc D a (c_with_bal 0%Z (c_with_suicided true c))))
-    | None => Ok A
+    | None => Ok (with_data A D)
     end
   | OAddLog d =>
     let l := mkLog d (as_th A) (as_bh A) (as_ti A) (ad_logsize D) in
@@ -86,7 +86,7 @@ Definition astep (A : astate) (o : op) : res astate :=
   | OAddRefund g => Ok (with_data A (mkAD (ad_acc D) ((ad_refund D + g) mod two64) (ad_logs D) (ad_logsize D) (ad_pre D)))
   | OAddPreimage h p =>
     match ad_pre D h with
-    | Some _ => Ok A
+    | Some _ => Ok (with_data A D)
     | None => Ok (with_data A (mkAD (ad_acc D) (ad_refund D) (ad_logs D) (ad_logsize D) (upd (ad_pre D) h (Some p))))
     end
   | OPrepare th bh ti => Ok (mkAS D th bh ti (as_snaps A) (as_next A))
